@@ -1,9 +1,9 @@
 CONSTANTS
-  MaxPred = 1
-  MaxBl = 1
-  MaxLine = 0
-  LinePred = 1
-  LineBl = 1
+  MaxPred = 0
+  MaxBl = 0
+  MaxLine = 2
+  LinePred = 0
+  LineBl = 0
   MaxCnt = 2
   MaxTests = 2
   Dists = {"Z", "P", "INF"}
